@@ -3,7 +3,7 @@
 #include "common.h"
 #include "vsched.h"
 
-#define SRCMAX (1u << 21)
+#define SRCMAX (3u << 20)
 static u8 *g_src, *g_dst, *g_out, *g_scratch, *g_dict;
 static int g_driver, g_spurious, g_unlockpt;
 static size_t g_jobsize;
@@ -66,7 +66,7 @@ static size_t run_script(ZSTD_CCtx* c, const u8* src, size_t n, const step_t* st
 static void body(void) {
     /* ---- driver configuration (free choices, made before any thread exists) ---- */
     int workers = 1, ldm = 0, checksum = 0, overlap = 0, dictMode = 0, level = 1, nsteps = 0, abortAt = -1, abortKind = 0, rsync = 0, workers2 = 0;
-    size_t n = 0; step_t st[16]; memset(st, 0, sizeof st);
+    size_t n = 0, jobsize = g_jobsize; int explicitWlog = 1, pairIdx = 0; step_t st[16]; memset(st, 0, sizeof st);
     char desc[200];
     switch (g_driver) {
     case 1: workers = 1 + vx_choose(2); n = 3 * g_jobsize + 100; st[0] = (step_t){ n, 1u << 20, ZSTD_e_end, 0 }; nsteps = 1; break;
@@ -86,6 +86,10 @@ static void body(void) {
         st[2] = (step_t){ n + (size_t)(workers - 1) * g_jobsize, 1u << 20, ZSTD_e_end, 0 }; n += (size_t)(workers - 1) * g_jobsize; nsteps = 3; } break;
     case 8: workers = 1 + vx_choose(2); rsync = 1; checksum = 1; n = g_jobsize * 2 + g_jobsize / 3; st[0] = (step_t){ n, 1u << 22, ZSTD_e_end, 0 }; nsteps = 1; break;
     case 9: workers = 3; workers2 = 1 + vx_choose(2); n = 3 * g_jobsize + 11; st[0] = (step_t){ n, 1u << 20, ZSTD_e_end, 0 }; nsteps = 1; break;
+    case 13: {   /* parameters changed between jobs with NO explicit window: the window announced by job 0 must bound every later job.  Jobs of 1 MiB so
+                  * that a repeat further back than the first level's window still lies inside one job; one default schedule per configuration. */
+        static const int LV[][2] = {{1, 7}, {1, 3}, {3, 1}, {7, 1}, {1, 13}, {-1, 6}}; int pi = vx_choose(6); pairIdx = pi; workers = 1 + vx_choose(2); level = LV[pi][0]; explicitWlog = 0; jobsize = 1u << 20;
+        n = (5u << 19) + 4321; st[0] = (step_t){ jobsize + 10, 1u << 22, ZSTD_e_continue, 0 }; st[1] = (step_t){ n, 1u << 22, ZSTD_e_end, LV[pi][1] }; nsteps = 2; overlap = 0; break; }
     default: return;
     }
     snprintf(desc, sizeof desc, "driver=%d workers=%d ldm=%d ck=%d overlap=%d dict=%d abortAt=%d/%d workers2=%d n=%zu", g_driver, workers, ldm, checksum, overlap, dictMode, abortAt, abortKind, workers2, n);
@@ -94,6 +98,7 @@ static void body(void) {
     fill_text(g_src, n, 5 + (uint32_t)g_driver);
     if (n > 5 * g_jobsize) memcpy(g_src + 4 * g_jobsize + 77, g_src + 100, g_jobsize / 2);
     if (g_driver == 8) fill_noise(g_src + n / 3, n / 3, 4);
+    if (g_driver == 13) { fill_noise(g_src, n, 3); for (size_t q = (1u << 20) + 750000; q + 4000 < n; q += 90000) memcpy(g_src + q, g_src + q - 700000, 3000); }     /* only the planted repeats (distance 700 000 > 2^19) can match */
 
     vs_config_t cfg; memset(&cfg, 0, sizeof cfg);
     cfg.pick = cb_pick; cfg.fail = cb_fail; cfg.horizon = 400000; cfg.spurious = g_spurious; cfg.unlock_is_point = g_unlockpt;
@@ -102,9 +107,9 @@ static void body(void) {
     size_t produced = 0; int mid = 0; int frames = 1;
     for (int frame = 0; frame < frames; frame++) {
         ZSTD_CCtx_setParameter(c, ZSTD_c_nbWorkers, (frame == 1 && workers2) ? workers2 : workers);
-        ZSTD_CCtx_setParameter(c, ZSTD_c_jobSize, (int)g_jobsize);
+        ZSTD_CCtx_setParameter(c, ZSTD_c_jobSize, (int)jobsize);
         ZSTD_CCtx_setParameter(c, ZSTD_c_compressionLevel, level);
-        ZSTD_CCtx_setParameter(c, ZSTD_c_windowLog, g_driver == 8 ? 17 : (ldm ? 14 : 10));
+        if (explicitWlog) ZSTD_CCtx_setParameter(c, ZSTD_c_windowLog, g_driver == 8 ? 17 : (ldm ? 14 : 10));
         ZSTD_CCtx_setParameter(c, ZSTD_c_checksumFlag, checksum);
         if (overlap) ZSTD_CCtx_setParameter(c, ZSTD_c_overlapLog, overlap);
         if (rsync) ZSTD_CCtx_setParameter(c, ZSTD_c_rsyncable, 1);
@@ -140,6 +145,7 @@ static void body(void) {
     uint64_t h = vx_hash(g_dst, produced) | 1;
     int slot = (g_driver * 64 + overlap * 5 + dictMode * 16 + (abortAt >= 0 ? 0 : 0)) & 4095;
     if (g_driver == 6 || g_driver == 9 || g_driver == 10) slot = (g_driver * 64) & 4095;
+    if (g_driver == 13) slot = (13 * 64 + pairIdx) & 4095;
     if (g_driver == 12) slot = (12 * 64 + (int)(n % 61)) & 4095;                /* D12's input and call boundaries depend on its choices: one subject per (n) */   /* second frame is the same subject for every abort point / worker change */
     uint64_t prev = __sync_val_compare_and_swap(&g_first[slot], 0, h);
     if (prev != 0 && prev != h) { vx_fail("differential: driver %d: output differs between schedules / worker counts for the same input and parameters", g_driver); return; }
